@@ -499,7 +499,11 @@ func (v *Verifier) ghostVar(st *State, name, sort string) *Term {
 }
 
 func (v *Verifier) ghostUpdate(st *State, env *Env, gu *GhostUpdate, what string) {
-	val, err := env.eval(gu.Value)
+	venv := *env
+	if env.old != nil {
+		venv.st = env.old
+	}
+	val, err := venv.eval(gu.Value)
 	if err != nil {
 		v.errorf("ghost_update of %s: %v", what, err)
 		return
@@ -523,6 +527,30 @@ func (v *Verifier) ghostUpdate(st *State, env *Env, gu *GhostUpdate, what string
 	}
 }
 
+// checkCaptures emits, at a MakeClosure site, the obligations that the closure's `captures` clauses hold.
+func (v *Verifier) checkCaptures(st *State, fn *ssa.Function, bindings []*Term, in ssa.Instruction) {
+	con, cpkg := v.contractFor(originOf(fn))
+	if con == nil || len(con.Captures) == 0 {
+		return
+	}
+	env := &Env{v: v, st: st, vars: map[string]Val{}, pkg: cpkg, frame: &Frame{fn: fn}}
+	for i, fv := range fn.FreeVars {
+		if i < len(bindings) {
+			if pt, ok := fv.Type().Underlying().(*types.Pointer); ok {
+				env.vars[fv.Name()] = Val{v.load(st, bindings[i], pt.Elem()), pt.Elem()}
+			}
+		}
+	}
+	for _, cl := range con.Captures {
+		g, err := env.evalBool(cl.Expr)
+		if err != nil {
+			v.errorf("captures %s: %v", cl.Label, err)
+			g = tFalse
+		}
+		v.emit(st, "pre@make_"+fnKey(originOf(fn)), cl.Label, cl.Tags, g, cl.Src, posOf(in.Parent(), in.Pos()))
+	}
+}
+
 func (v *Verifier) havocLoc(st *State, l modLoc, in ssa.Instruction) {
 	switch l.kind {
 	case "heap":
@@ -539,13 +567,36 @@ func (v *Verifier) havocLoc(st *State, l modLoc, in ssa.Instruction) {
 		if h == nil {
 			h = v.heapFor(st, l.sort)
 		}
-		v.frameCheckLoc(st, l.key, l.addr, in)
+		if l.guard == nil {
+			v.frameCheckLoc(st, l.key, l.addr, in)
+		}
 		f := v.Y.fresh(v.D, "hv", l.sort)
 		if l.typ != nil {
 			v.addTypeFacts(st, f, l.typ)
 		}
+		if l.guard != nil {
+			if l.guard.Op == "false" {
+				return
+			}
+			f = tIte(l.guard, f, h.read(l.addr))
+		}
 		h.write(l.addr, f)
 		v.recordWrite(l.key, l.addr)
+	case "anyelems":
+		h := st.heap[l.key]
+		if h == nil {
+			h = v.heapFor(st, l.sort)
+		}
+		oldArr := h.arrayTerm()
+		nb := v.Y.fresh(v.D, "hany", h.arraySort())
+		p := mk("Ptr", "zz_qp")
+		sel := mk(h.ElSort, "select", nb, p)
+		st.assume(mk("Bool", "forall ((zz_qp Ptr))", withPattern(tImp(tNot(mk("Bool", "(_ is zz_elem)", p)), tEq(sel, mk(h.ElSort, "select", oldArr, p))), sel)))
+		h.Base = nb
+		h.Writes = nil
+		if v.col != nil {
+			v.col.allKeys[l.key] = true
+		}
 	case "elems":
 		h := st.heap[l.key]
 		if h == nil {
@@ -559,9 +610,13 @@ func (v *Verifier) havocLoc(st *State, l modLoc, in ssa.Instruction) {
 	case "key":
 		h := st.heap[l.key]
 		if h == nil {
-			h = v.heapFor(st, l.sort)
+			if strings.HasPrefix(l.key, "map") {
+				h = v.customHeap(st, l.key, "Ptr", l.sort)
+			} else {
+				h = v.heapFor(st, l.sort)
+			}
 		}
-		v.frameViolation(st, in, "callee modifies a whole heap component")
+		v.frameCheckLoc(st, l.key, mk("Ptr", "zz_anyaddr"), in)
 		h.Base = v.Y.fresh(v.D, "hk", h.arraySort())
 		h.Writes = nil
 		if v.col != nil {
@@ -577,9 +632,18 @@ func (v *Verifier) havocRegion(st *State, h *HeapArr, base *Term) {
 	nb := v.Y.fresh(v.D, "hreg", h.arraySort())
 	p := mk("Ptr", "zz_qp")
 	in := inBackingArray(p, base)
-	st.assume(mk("Bool", "forall ((zz_qp Ptr))", tImp(tNot(in), tEq(mk(h.ElSort, "select", nb, p), mk(h.ElSort, "select", oldArr, p)))))
+	sel := mk(h.ElSort, "select", nb, p)
+	st.assume(mk("Bool", "forall ((zz_qp Ptr))", withPattern(tImp(tNot(in), tEq(sel, mk(h.ElSort, "select", oldArr, p))), sel)))
 	h.Base = nb
 	h.Writes = nil
+}
+
+func withPattern(body *Term, pats ...*Term) *Term {
+	args := []*Term{body}
+	for _, p := range pats {
+		args = append(args, mk("", ":pattern ("+p.String()+")"))
+	}
+	return mk("Bool", "!", args...)
 }
 
 // inBackingArray(p, base): p is elem(base, _) or a field path (depth<=2) below such an element.
@@ -636,9 +700,19 @@ func (v *Verifier) frameCheckLoc(st *State, key string, addr *Term, in ssa.Instr
 			if m.key == key {
 				return
 			}
+		case "anyelems":
+			if m.key == key {
+				if addr.Op == "zz_elem" {
+					return
+				}
+				alts = append(alts, mk("Bool", "(_ is zz_elem)", addr))
+			}
 		case "exact":
 			if m.key == key {
 				e := tEq(addr, m.addr)
+				if m.guard != nil {
+					e = tAnd(m.guard, e)
+				}
 				if e.Op == "true" {
 					return
 				}
@@ -1340,6 +1414,13 @@ func (v *Verifier) finishPath(st *State, rs []*Term) {
 		}
 		v.emit(st, "post", en.Label, en.Tags, g, en.Src, "")
 	}
+	if con.FreshResult && len(rs) > 0 {
+		g := tTrue
+		if rootOf(rs[0]).Op != "zz_new" {
+			g = mk("Bool", "zz_isnew", rs[0])
+		}
+		v.emit(st, "post", "fresh_result", []string{"C07", "C08"}, g, "result is a freshly acquired object (owned by the caller)", "")
+	}
 	for _, x := range v.extraPosts {
 		for _, en := range x.Ensures {
 			g, err := env.evalBool(en.Expr)
@@ -1425,7 +1506,7 @@ func (v *Verifier) verifyFunc(fn *ssa.Function, con *Contract, name string) {
 		}
 	}
 	env := &Env{v: v, st: st, vars: v.topVars, pkg: cpkg, frame: f}
-	for _, rq := range con.Requires {
+	for _, rq := range append(append([]*Clause{}, con.Requires...), con.Captures...) {
 		g, err := env.evalBool(rq.Expr)
 		if err != nil {
 			v.errorf("requires %s: %v", rq.Label, err)
@@ -1446,6 +1527,11 @@ func (v *Verifier) verifyFunc(fn *ssa.Function, con *Contract, name string) {
 		}
 	}
 	// interface / functype contracts this function claims to implement
+	type guJob struct {
+		ic  *Contract
+		env *Env
+	}
+	var pendingGU []guJob
 	for _, impl := range con.Implements {
 		ic := v.lookupImplTarget(con, impl)
 		if ic == nil {
@@ -1480,6 +1566,7 @@ func (v *Verifier) verifyFunc(fn *ssa.Function, con *Contract, name string) {
 			}
 			st.assume(g)
 		}
+		pendingGU = append(pendingGU, guJob{ic, ienv})
 		// its postconditions become obligations, evaluated with its own parameter names
 		cp := *ic
 		cp.Name = impl
@@ -1500,6 +1587,15 @@ func (v *Verifier) verifyFunc(fn *ssa.Function, con *Contract, name string) {
 	}
 	st.entry = st.snapshot()
 	st.entry.entry = nil
+	// ghost updates of implemented interface contracts happen "on entry" of the implementer
+	for _, j := range pendingGU {
+		for _, gu := range j.ic.GhostUpd {
+			e2 := *j.env
+			e2.st = st
+			e2.old = st.entry
+			v.ghostUpdate(st, &e2, gu, j.ic.Name)
+		}
+	}
 	// vacuity: the assumptions at entry must be satisfiable
 	o := &Obligation{Name: name + "#vacuity:pre", Func: name, Kind: "vacuity", Label: "pre", Goal: tFalse, Expect: "sat", D: v.D, Src: "entry assumptions satisfiable"}
 	o.Assume = append([]*Term(nil), st.pc...)
